@@ -112,11 +112,14 @@ def pil_save(e, s, recv, a, k):
     return [(None, s)]
 
 
-def iterm2_unit(method, term, src):
-    @unit(("C01", "C03", "C11"), f"iterm2:ITerm2Image._render_image[{method},{term},src={src}]")
+def iterm2_unit(method, term, src, override=None):
+    """override: the per-call `method` argument as spelled by the caller; the image's own effective method is then another one"""
+    tag = f"{method},{term},src={src}" + (f",override={override}" if override else "")
+
+    @unit(("C01", "C03", "C11", "C20"), f"iterm2:ITerm2Image._render_image[{tag}]")
     def u(ctx, method=method, term=term, src=src):
-        eng = ctx.engine(f"C01/iterm2._render_image[{method},{term},src={src}]", "C01")
-        eng.default_replay = {"C01": "C01.render", "C03": "C03.render", "C11": "C11.fds"}
+        eng = ctx.engine(f"C01/iterm2._render_image[{tag}]", "C01")
+        eng.default_replay = {"C01": "C01.render", "C03": "C03.render", "C11": "C11.fds", "C20": "C20.method_override"}
         st = State()
         ns = ctx.ns("term_image.image.iterm2")
         cs = ctx.ns("term_image._ctlseqs")
@@ -144,7 +147,8 @@ def iterm2_unit(method, term, src):
         st.ghost["vt"] = vt_new(r0, z3.IntVal(0), B0, TW, TH, line_pred=line_pred)
         IS = eng.genv["ImageSource"].d
         animated = z3.Bool("is_animated") if method == "anim" else False
-        self_ = st.new("ITerm2Image", {"_render_method": method, "_TERM": term, "_source_type": IS["PIL_IMAGE"] if src.startswith("pil") else IS["FILE_PATH"],
+        effective = method if override is None else ("whole" if method == "lines" else "lines")
+        self_ = st.new("ITerm2Image", {"_render_method": effective, "_TERM": term, "_source_type": IS["PIL_IMAGE"] if src.startswith("pil") else IS["FILE_PATH"],
                                        "_is_animated": animated, "_source": "SRC_PATH", "_original_size": (ow, oh)})
         eng.attrs[("ITerm2Image", "rendered_size")] = lambda e, s, v: [((rw, rh), s)]
         eng.attrs[("ITerm2Image", "jpeg_quality")] = lambda e, s, v: [(z3.Int("jpeg_quality"), s)]
@@ -224,7 +228,7 @@ def iterm2_unit(method, term, src):
                 s.env["img"] = s.new("PIL.Image", {"mode": out_mode, "role": "strip-prev", "open": False})
             eng.invariants = {1: LoopSpec(inv, havoc)}
         mix = z3.Bool("mix")
-        st.env.update(self=self_, img=img0, alpha=Opaque("alpha"), frame=(False if method == "anim" else z3.Bool("frame")), method=None, mix=mix, compress=z3.Int("compress"))
+        st.env.update(self=self_, img=img0, alpha=Opaque("alpha"), frame=(False if method == "anim" else z3.Bool("frame")), method=override, mix=mix, compress=z3.Int("compress"))
         # `alpha` only matters in the read-from-file gate (isinstance(alpha, float)) and img.mode membership tests
         st.env["alpha"] = z3.Real("alpha_threshold")
         outs = run_function(eng, ctx.fn(ITERM, "ITerm2Image._render_image"), st)
@@ -258,6 +262,8 @@ def iterm2_unit(method, term, src):
                               z3.Or(to_z3(g["col"]) == W, z3.And(W == TW, to_z3(g["col"]) == TW - 1)), to_z3(g["bottom"]) == B0,
                               z3.BoolVal(g["parser"] == "ground")), kind="post")
             cmds = g.get("iterm2", [])
+            eng.oblige("C20:render-method-used=the-per-call-override(any-letter-case),else-the-image's-effective-method", s2,
+                       And(method == "lines" or len(cmds) >= 1, *[Eq(c_["height"], 1 if method == "lines" else rh) for c_ in cmds]), prop="C20", kind="post")
             if method != "lines":
                 ok = len(cmds) == 1 and And(Eq(cmds[0]["width"], rw), Eq(cmds[0]["height"], rh))
                 eng.oblige("one-image-command-covering-exactly-the-rectangle", s2,
@@ -273,3 +279,5 @@ for _meth in ("lines", "whole", "anim"):
     for _term in ("konsole", "wezterm", "iterm2"):
         for _src in ("pil-nofile", "pil-file", "file"):
             iterm2_unit(_meth, _term, _src)
+    for _ov in (_meth.upper(), _meth.capitalize()):
+        iterm2_unit(_meth, "iterm2", "file", override=_ov)
